@@ -255,13 +255,13 @@ PROPS = {
         assumptions=['third-party decoders (fxamacker/cbor, encoding/json, go-cose, eat) never panic: assumed, exercised by this sweep'],
     ),
     'C06': dict(
-        cone=EMB_CONE, level='proof', oracle=_c06_oracle, kernel=False, rlimit_as=8 << 30,
+        cone=EMB_CONE + ['theories/EmbeddedBound.v'], level='proof', oracle=_c06_oracle, kernel=False, rlimit_as=8 << 30,
         nontrivial=lambda i, o: True, classify=lambda i, o: i.split(' ')[0],
         rule='headers declaring 2^8..2^32-1 map / array / byte-string / text lengths (4- and 8-byte heads) followed by 0..16 bytes, bare, self-described-tagged, as a claim value, as a component list and inside a COSE envelope; nesting to depth 20 000 (CBOR arrays / maps / tags, JSON arrays / objects); 60 KB numbers and strings in JSON; valid tokens padded to 64 KiB; maps with thousands of entries; through every decoding entry point (ALL) and the hand-rolled reader (FROM); measured in a single-goroutine process under RLIMIT_AS 8 GiB: TotalAlloc delta against 1 MiB + 1 KiB per input byte, wall time against 5 s',
         assumptions=['allocation behaviour of fxamacker/cbor, encoding/json, go-cose behind their well-formedness pre-check: assumed, measured'],
     ),
     'C15': dict(
-        cone=EMB_CONE + ['theories/EmbeddedRoundtrip.v', 'theories/EmbeddedFlat.v'], level='proof', kernel_maxlen=3000,
+        cone=EMB_CONE + ['theories/EmbeddedRoundtrip.v', 'theories/EmbeddedFlat.v', 'theories/EmbeddedDeep.v'], level='proof', kernel_maxlen=3000,
         nontrivial=lambda i, o: True, classify=lambda i, o: ' '.join(i.split(' ')[:2]) if not i.startswith('FMAP') else 'FMAP',
         rule='entry counts 0..40, 250..260, 65530..65540, 70000 (thorough: step 97 in between) through the build-tagged hook (Add / ToCBOR / FromCBOR: header bytes, total length, round trip); seven struct shapes (flat with untagged and "-" fields, one and two levels of embedded struct, embedded interface holding a struct pointer or nil, duplicate key across levels, all-optional) x random values x random subsets of set fields through SerializeStructToCBOR (bytes compared with the model) and SerializeStructToJSON (stable output, populate round trip, same map as encoding/json and as the plain CBOR marshaller for the flat shape); PopulateStructFromCBOR on hand-assembled maps with missing / duplicate / unknown keys, wrong value types, indefinite length, tags, trailing bytes',
     ),
